@@ -256,6 +256,10 @@ func canonCase(in map[string]any) map[string]any {
 		return res
 	case "synth":
 		return synthCase(in)
+	case "synthhist":
+		return synthHistCase(in)
+	case "compilehist":
+		return compileHistCase(in)
 	}
 	return map[string]any{"crash": "unknown mode"}
 }
@@ -352,4 +356,111 @@ func synthCase(in map[string]any) map[string]any {
 		runs = append(runs, got)
 	}
 	return map[string]any{"ref": ref, "runs": runs}
+}
+
+// synthHistCase: a HISTORY of Runs on one executor over one node table. history = [{roots, evict}]:
+// at every step the listed keys are evicted first (if any), then Run(roots) on the warm executor
+// and, for reference, the same Run(roots) on a fresh executor. What a Run reports must not depend
+// on what the executor had memoised before (every diagnostic message is distinct, so the
+// canonical order is unique).
+func synthHistCase(in map[string]any) map[string]any {
+	g := &synGraph{nodes: map[string]synNode{}}
+	for _, n := range vhlib.List(in, "nodes") {
+		nm := obj(n)
+		g.nodes[vhlib.Str(nm, "name")] = synNode{n: int(vhlib.Num(nm, "n")), level: int(vhlib.Num(nm, "level")), deps: vhlib.Strs(nm, "deps")}
+	}
+	par := vhlib.Num(in, "par")
+	exec := incremental.New(incremental.WithParallelism(par))
+	steps := []any{}
+	for _, h := range vhlib.List(in, "history") {
+		hm := obj(h)
+		roots := vhlib.Strs(hm, "roots")
+		if ev := vhlib.Strs(hm, "evict"); len(ev) > 0 {
+			keys := make([]any, 0, len(ev))
+			for _, nm := range ev {
+				keys = append(keys, synQ{g, nm}.Key())
+			}
+			exec.Evict(keys...)
+		}
+		warm, e := synRun(exec, g, roots)
+		if e != "" {
+			return map[string]any{"err": e}
+		}
+		fresh, e := synRun(incremental.New(incremental.WithParallelism(par)), g, roots)
+		if e != "" {
+			return map[string]any{"err": e}
+		}
+		steps = append(steps, map[string]any{"warm": warm, "fresh": fresh})
+	}
+	return map[string]any{"steps": steps}
+}
+
+// histRun runs one step of a compile history: kind "link" = one Link query over the paths,
+// kind "ir" = one IR query per path (several roots).
+func histRun(exec *incremental.Executor, session *ir.Session, opener source.Opener, kind string, paths []string) (*report.Report, string) {
+	if kind == "link" {
+		return compileOnce(exec, session, opener, source.NewWorkspace(paths...))
+	}
+	qs := make([]incremental.Query[*ir.File], 0, len(paths))
+	for _, p := range paths {
+		qs = append(qs, queries.IR{Opener: opener, Session: session, Path: p})
+	}
+	ctx, cancel := context.WithTimeout(context.Background(), 60*time.Second)
+	defer cancel()
+	_, r, err := incremental.Run(ctx, exec, qs...)
+	if err != nil {
+		return nil, "run-error: " + err.Error()
+	}
+	if r == nil {
+		return nil, "nil-report"
+	}
+	return r, ""
+}
+
+// compileHistCase: files, par, history = [{kind, paths, evict}]. One executor and one session for the
+// whole history; every step is also run on a fresh executor with a fresh session. Returns for
+// every step the rendered report and the element-wise dump of both.
+func compileHistCase(in map[string]any) map[string]any {
+	m := map[string]*source.File{}
+	for _, f := range vhlib.List(in, "files") {
+		fm := obj(f)
+		m[vhlib.Str(fm, "path")] = source.NewFile(vhlib.Str(fm, "path"), vhlib.Str(fm, "text"))
+	}
+	var opener source.Opener = &source.Openers{source.NewMap(m), source.WKTs()}
+	par := vhlib.Num(in, "par")
+	exec := incremental.New(incremental.WithParallelism(par))
+	session := new(ir.Session)
+	steps := []any{}
+	ndiag := 0
+	for k, h := range vhlib.List(in, "history") {
+		hm := obj(h)
+		kind := vhlib.Str(hm, "kind")
+		paths := vhlib.Strs(hm, "paths")
+		if ev := vhlib.Strs(hm, "evict"); len(ev) > 0 {
+			keys := make([]any, 0, len(ev))
+			for _, p := range ev {
+				keys = append(keys, queries.File{Opener: opener, Path: p}.Key())
+			}
+			exec.Evict(keys...)
+		}
+		rw, e := histRun(exec, session, opener, kind, paths)
+		if e != "" {
+			return map[string]any{"err": e, "step": k}
+		}
+		rf, e := histRun(incremental.New(incremental.WithParallelism(par)), new(ir.Session), opener, kind, paths)
+		if e != "" {
+			return map[string]any{"err": e, "step": k}
+		}
+		tw, _, _ := report.Renderer{ShowRemarks: true}.RenderString(rw)
+		tf, _, _ := report.Renderer{ShowRemarks: true}.RenderString(rf)
+		fw, _, _ := dump(rw)
+		ff, _, _ := dump(rf)
+		ndiag += len(ff)
+		st := map[string]any{"same": tw == tf && fmt.Sprint(fw) == fmt.Sprint(ff), "n": len(ff)}
+		if !(tw == tf && fmt.Sprint(fw) == fmt.Sprint(ff)) {
+			st["warm_render"], st["fresh_render"], st["warm_full"], st["fresh_full"] = tw, tf, fw, ff
+		}
+		steps = append(steps, st)
+	}
+	return map[string]any{"steps": steps, "n": ndiag}
 }
